@@ -94,7 +94,7 @@ def budget(tier):
 
 @st.composite
 def _case(draw):
-    prog = draw(co2.programs(profile={"exits": True}, max_helpers=4))
+    prog = draw(co2.programs(profile={"exits": True, "recursion": True}, max_helpers=4))
     helpers = prog["flows"][:-1]
     kind = draw(st.sampled_from(list(FAULTS) + ["none"]))
     h = draw(st.integers(0, len(helpers) - 1))
@@ -308,5 +308,7 @@ def prop(case):
     if case["activate_helpers"]:
         labels.append("helpers-activated")
     view = {"program": text, "history": case["hist"][:10], "fault": case["fault"], "reached": reached}
+    if co2.has_recursion({"flows": list(case["helpers"]) + [{"body": []}]}):
+        labels.append("recursive-flow-calls")
     labels.append("steps<=%d" % (10 ** len(str(max(max_steps, 1)))))
     return ok(nt=nt, labels=labels, view=view, counters={"canary_checks": canary_checks})
